@@ -88,10 +88,13 @@ pub struct Ctx {
 }
 
 impl Ctx {
-    pub fn new() -> Self {
+    /// `with_mates`: verify the forced-mate positions (only the exactness / symmetry plans need them;
+    /// it costs a few hundred ms, which matters for workers that are respawned after every violating run)
+    pub fn new(with_mates: bool) -> Self {
         let pool = crate::pool::pool();
         let mut mates = Vec::new();
-        for (f, _) in crate::pool::MATES {
+        let mate_list: &[(&str, u32)] = if with_mates { crate::pool::MATES } else { &[] };
+        for (f, _) in mate_list {
             if let Ok(p) = Pos::from_fen(f) {
                 if !p.is_sane() {
                     continue;
